@@ -178,9 +178,9 @@ def random_specs(rng, n):
                 signed = ty.startswith("i")
                 forms = []
                 if not signed and R is not None:
-                    for k in range(1, bits):
-                        if ((2 ** bits - 1) >> k) == cur:
-                            forms.append("!0 >> %d" % k)
+                    for sh in range(1, bits):
+                        if ((2 ** bits - 1) >> sh) == cur:
+                            forms.append("!0 >> %d" % sh)
                 if cur > 0 and cur & (cur - 1) == 0 and R is not None and cur.bit_length() - 1 < (bits - 1 if signed else bits):
                     forms.append("1 << %d" % (cur.bit_length() - 1))
                 if cur < 0 and (-cur) & (-cur - 1) == 0 and R is not None and (-cur).bit_length() - 1 < bits - 1:
@@ -207,9 +207,90 @@ def random_specs(rng, n):
     return out
 
 
+specs_cache = {}
+
+
+def e2(run, programs, tier, seed, known):
+    """E2: MIR of from_repr and of the generated <Variant>_DISCRIMINANT constants -> bit-vector VCs (z3 + cvc5)."""
+    import copy, os, shutil, time
+    import framework as fw
+    import driver
+    import mir2smt as m
+    import mir2smt_repr as mr
+    specs = specs_cache.get((tier, seed), [])
+    t0 = time.time()
+    cdir = os.path.join(run.cdir, "e2r")
+    os.makedirs(os.path.join(cdir, "src"), exist_ok=True)
+    with open(os.path.join(cdir, "Cargo.toml"), "w") as f:
+        f.write('[package]\nname = "sv_c06_e2"\nversion = "0.0.0"\nedition = "2021"\n[dependencies]\nstrum = { path = "%s/strum", features = ["derive"] }\n[workspace]\n' % fw.REPO)
+    shutil.copy(fw.lockfile(), os.path.join(cdir, "Cargo.lock"))
+    src = ["#![allow(dead_code, non_camel_case_types, unused)]", "pub const BASE_EXPR: u8 = 10;"]
+    for sp in specs:
+        sp2 = copy.deepcopy(sp)
+        sp2.std_derives = ["Debug"]
+        src.append(render_enum(sp2))
+    with open(os.path.join(cdir, "src", "lib.rs"), "w") as f:
+        f.write("\n".join(src) + "\n")
+    env = dict(fw.ENV)
+    env["CARGO_TARGET_DIR"] = os.path.join(fw.CACHE, "e2-target")
+    rc, out, to, _ = fw.run(["cargo", "+nightly", "rustc", "--offline", "--lib", "--", "-Zunpretty=mir", "-C", "debug-assertions=off", "-C", "overflow-checks=off"],
+                            cwd=cdir, timeout=900, env=env, log=None)
+    k = out.find("// WARNING: This output format")
+    res = {"queries": 0, "nontrivial": 0, "solver_s": 0.0, "functions": [], "samples": [], "unsupported": [],
+           "claim": "for EVERY d of the discriminant type: the variant reached through from_repr's MIR, with the generated constants evaluated "
+                    "from their own MIR bodies, is the enabled variant whose rustc discriminant is d"}
+    if rc != 0 or k < 0:
+        res["unsupported"].append("no MIR dump (rc=%s): not decided by E2" % rc)
+        run.say("NOTE: E2 (from_repr) could not obtain a MIR dump; the property rests on E1")
+        return res
+    text = out[k:]
+    for sp in specs:
+        R = sp.repr if sp.repr in INT_TYPES else "usize"
+        prog = next((p for p in programs if (" enum %s " % sp.name) in p.enum_src or (" enum %s<" % sp.name) in p.enum_src), None)
+        vs = [(v.ident, v.disabled, d) for v, d in zip(sp.variants, discriminants(sp))]
+        try:
+            vcs, fl, consts, bits = mr.from_repr_vcs(text, sp.name, R, vs)
+        except m.Unsupported as e:
+            res["unsupported"].append("%s: %s" % (sp.name, e))
+            continue
+        res["functions"].extend(fl)
+        for vc in vcs:
+            v, secs, detail = mr.solve_bv(vc["script"], bits)
+            tw, secs2, _ = mr.solve_bv(vc["twin"], bits)
+            res["queries"] += 2
+            res["solver_s"] += secs + secs2
+            if v == "unsat" and tw == "sat":
+                res["nontrivial"] += 1
+                if len(res["samples"]) < 2:
+                    res["samples"].append({"engine": "E2-repr", "enum": sp.name, "vc": vc["name"], "what": vc["what"], "constants": consts, "verdict": "unsat", "solvers": detail})
+            elif v == "unsat":
+                if "leaf" not in vc["name"]:
+                    run.machinery.append("E2-repr vacuity: sat-twin of %s/%s is %s" % (sp.name, vc["name"], tw))
+            elif v == "sat":
+                d = mr.model_d(vc["script"], bits)
+                what = "E2-repr VC %s/%s violated (%s) at d=%s; generated constants %s" % (sp.name, vc["name"], vc["what"], d, consts)
+                h = next((h for h in prog.harnesses if h.name == "h_from_repr_all_d"), None) if prog else None
+                if d is None or h is None:
+                    run.machinery.append(what + " (no model / no E1 program to replay through)")
+                    continue
+                vec = [int(d).to_bytes(bits // 8, "little")]
+                replay = fw.native_replay(run.cdir, run.pid, "%s::%s" % (prog.name, h.name), vec, run.log)
+                if fw.reproduces(replay):
+                    driver.report(run, prog, h, {"check": what, "vals": vec}, replay, known)
+                else:
+                    run.machinery.append(what + " but it does not reproduce natively: %s" % {k2: v2["outcome"] for k2, v2 in replay.items()})
+            else:
+                run.machinery.append("E2-repr inconclusive: %s/%s (%s)" % (sp.name, vc["name"], detail))
+    res["wall_s"] = round(time.time() - t0, 1)
+    if res["unsupported"]:
+        run.say("NOTE: E2 (from_repr) could not encode: %s  (not decided by E2; E1 decides these)" % "; ".join(res["unsupported"][:4]))
+    return res
+
+
 def build(tier, seed):
     rng = mk_rng(seed, "C06")
     specs = pivot() + random_specs(rng, 8 if tier == "quick" else 32)
+    specs_cache[(tier, seed)] = specs
     programs = []
     for i, s in enumerate(specs):
         consts = "pub const BASE_EXPR: u8 = 10;\n" if s.name == "Expr" else ""
